@@ -52,6 +52,7 @@ Proof.
   - intros Hl H0. rewrite Htot in H0. destruct (J9 s I Hl H0) as (h & Hm). exists h. rewrite HT.
     destruct (Nat.eqb_spec h t) as [->|]; cbn [mustfree x']; exact Hm.
   - apply J10_upd; auto. intros (c0 & Hc0). destruct (J10 s I c0 t Hc0) as (_ & _ & Hr' & _ & He' & _). auto.
+  - apply J11_upd; auto.
 Qed.
 
 (* ---------- ASpawn ---------- *)
@@ -170,4 +171,11 @@ Proof.
       (destruct (Nat.eqb_spec p0 t) as [->|Hp0t]; [exfalso; exact (Hnolend _ El)|]).
     + cbn [started clk xp]. repeat split; auto. eapply cle_trans; [exact HW0|exact Hcc].
     + repeat split; auto.
+  - intros u p m. rewrite HT.
+    destruct (Nat.eqb_spec u c) as [->|Hn1]; cbn [refs clk xc].
+    + intros Hr' Hn Hun. assert (refs (T s t) <= val m); [|lia].
+      apply (J11 s I t p m); [lia|exact Hn|]. intros m' Hin Hhb. apply (Hun m' Hin). eapply hb_mono; [exact Hcc2|exact Hhb].
+    + destruct (Nat.eqb_spec u t) as [->|Hn2]; cbn [refs clk xp]; [|apply (J11 s I u p m)].
+      intros Hr' Hn Hun. assert (refs (T s t) <= val m); [|lia].
+      apply (J11 s I t p m); [lia|exact Hn|]. intros m' Hin Hhb. apply (Hun m' Hin). eapply hb_mono; [exact Hcc|exact Hhb].
 Qed.
